@@ -104,10 +104,9 @@ class FormulaParser(Parser):
 
     def p_expression_uminus(self, p):
         'expression : MINUS expression %prec UMINUS'
-        if isinstance(p[2], error.XLError):
-            p[0] = p[2]
-        else:
-            p[0] = -p[2]
+        # negation is multiplication by -1: same implicit conversions (and errors) as the
+        # binary operators instead of Python's unary minus, which fails on text, blanks and arrays
+        p[0] = operators.evaluate_arithmetic('*', -1, p[2])
 
     def p_expression_number(self, p):
         """
